@@ -31,7 +31,10 @@ LEVEL_TEXT = ("Proof: the CSEP-ASCII writer followed by the reader returns every
               "the integer catalog id for every list of events with times in 1900..2200, including the empty list; the "
               "time cell (epoch ms -> datetime -> str -> 'T' -> strptime with fraction sniffing -> epoch ms) is inverted "
               "by both reader formats and carries a fraction iff ms mod 1000 != 0; dict and DataFrame forms return the "
-              "events, the catalog id, and (dict) name and region; append mode without header is concatenation. Tied to "
+              "events, the catalog id, and (dict) name and region — the region's own dict form is modelled and proved to "
+              "round-trip to a region with the same polygons and spacing that puts every point into the same cell; a "
+              "catalog array without id column round-trips up to record-index ids; append mode without header is "
+              "concatenation, also onto an empty first catalog. Tied to "
               "the code by an exact correspondence of file records, loaded catalogs and raised exceptions on generated "
               "catalogs, all three formats, plus a direct field-by-field bitwise oracle on the real round trips.")
 LEVEL_NOTE = ("The text codecs are abstract in the model (round-trip hypotheses) and checked by the harness on every "
@@ -43,7 +46,13 @@ TECHNIQUE = "Lean 4 proof (list induction over the record model + Time codec lem
 
 THEOREMS = ["Persist.time_string_roundtrip", "Persist.time_string_fraction_iff", "Persist.ascii_roundtrip",
             "Persist.ascii_catalog_id", "Persist.dict_roundtrip", "Persist.dataframe_roundtrip", "Persist.append_concat",
-            "Persist.ascii_keeps_duplicates", "Persist.dataframe_dict_keep_count"]
+            "Persist.ascii_keeps_duplicates", "Persist.dataframe_dict_keep_count",
+            # round 4
+            "Persist.ascii_roundtrip_no_id_column", "Persist.renumber_keeps_fields", "Persist.renumber_ids",
+            "Persist.writeAsciiG_with_id", "Persist.append_concat_any", "Persist.region_dict_roundtrip",
+            "Persist.region_dict_fixpoint", "Persist.region_name_survives_iff", "Persist.dict_roundtrip_concrete",
+            "Persist.dict_roundtrip_bins_identically", "Persist.empty_catalog_region_survives",
+            "Persist.class_id_defaults_to_cartesian", "Persist.finding_quadtree_form_loses_region"]
 TRUSTED = ["Lean 4.33 kernel", "axioms: propext, Classical.choice, Quot.sound at most",
            "float text codec str(numpy.float64(x)) / float(text) is the identity on finite doubles "
            "(hypothesis of the theorems; checked bitwise on every float cell the harness sees)",
@@ -52,7 +61,8 @@ TRUSTED = ["Lean 4.33 kernel", "axioms: propext, Classical.choice, Quot.sound at
            "(checked through the direct oracle on every generated catalog)",
            "CPython datetime/str/strptime for canonical field widths (hand transcription in Model/Time, validated by C15 "
            "and by the c14_timestr / c14_read correspondence)",
-           "CartesianGrid2D.to_dict/from_dict is abstract in the model (region round trip checked by the oracle only)",
+           "CartesianGrid2D.from_origins rebuilds the same lattice from the same origins and spacing (C01/C18; the dict "
+           "form itself is modelled here and compared with the real to_dict / from_dict on every generated region)",
            "harness/c14.py generators, oracle and comparison; driver parsing (Proto.lean, Drive/C14.lean)"]
 RULE = ("catalogs of 0..40 events (sizes 0, 1, 2, 40 always present) built with CSEPCatalog(data=...); ids over printable "
         "ASCII of length 1..30, sometimes up to 256 and beyond (S256 truncation happens at construction, the constructed "
@@ -69,11 +79,23 @@ RULE = ("catalogs of 0..40 events (sizes 0, 1, 2, 40 always present) built with 
         "through UTC, Asia/Tokyo, America/Los_Angeles, Europe/London and POSIX TZ strings (restored afterwards). A "
         "(catalog, format) evaluation is non-trivial when the catalog is empty, has an event with ms % 1000 != 0, an id "
         "containing one of , \" ; or a space, or two identical events; distinct by the SHA-1 of the replay case "
-        "(catalog content + format + options + zone).")
+        "(catalog content + format + options + zone). Round 4: every catalog also through write_ascii(id_col=<a column "
+        "the array does not have>) (empty id cells, ids become record indices); every catalog with a region: the "
+        "region's dict form and the reloaded region (name, dh, polygon origins in order) against the model, the "
+        "reloaded region must put every probe point (events, cell centres and quarter points, points outside) into "
+        "the same cell as the original, per-cell counts against the model; hand-edited region dicts (class_id missing / "
+        "None / unknown, region None, quadtree-like form, missing dh / polygons / name) against the model of the "
+        "region branch of from_dict (recorded below the property level); append pairs with an empty first catalog.")
 
 # sub-classes on which the UNCHANGED pyCSEP contradicts the property: generated only once a decision (fix or known
 # finding) has removed them from this list; see notes/C14.md "Awaiting decision"
-AWAITING_DECISION = []   # "numpy-integer catalog_id through JSON" was fixed in /repo (D31, 532c783)
+AWAITING_DECISION = [     # "numpy-integer catalog_id through JSON" was fixed in /repo (D31, 532c783)
+    # GENUINE-DEFECT CANDIDATE (round 4): a catalog bound to a QuadtreeGrid2D comes back from to_dict/from_dict and
+    # write_json/load_json WITHOUT region, silently (QuadtreeGrid2D.to_dict has neither 'dh' nor 'class_id'; from_dict
+    # takes it for a CartesianGrid2D, the AttributeError 'cannot create region without dh' is swallowed).
+    # Lean: Persist.finding_quadtree_form_loses_region. Generated only once this entry is removed.
+    "quadtree region through dict/JSON",
+]
 
 # ---- the process's local time zone must not matter (stored times are UTC epoch milliseconds)
 ZONES = [None, "Asia/Tokyo", "America/Los_Angeles", None, "Europe/London", "JST-9", "PST8PDT,M3.2.0,M11.1.0",
@@ -178,6 +200,9 @@ def build_region(rs):
     from csep.core.regions import CartesianGrid2D
     if rs is None:
         return None
+    if rs.get("quadkeys"):
+        from csep.core.regions import QuadtreeGrid2D
+        return QuadtreeGrid2D.from_quadkeys(list(rs["quadkeys"]), name=rs.get("name"))
     origins = numpy.array([[float.fromhex(x), float.fromhex(y)] for x, y in rs["origins"]])
     dh = float.fromhex(rs["dh"])
     if rs.get("origins_dtype"):      # a lattice given as an integer-dtype array (grid built from range())
@@ -202,9 +227,34 @@ def build_catid(spec):
 
 
 def build(spec, with_region=True):
+    """the catalog as the user hands it over: a list of tuples (default), a list of lists, a mixture, or a structured
+    array of the catalog dtype (round 4: the branches of _get_catalog_as_ndarray, catalogs.py:284-293)"""
     from csep.core.catalogs import CSEPCatalog
-    return CSEPCatalog(data=[event_of_spec(s) for s in spec["events"]], catalog_id=build_catid(spec),
+    data = [event_of_spec(s) for s in spec["events"]]
+    kind = spec.get("data_kind")
+    if kind == "lists":
+        data = [list(e) for e in data]
+    elif kind == "mixed":
+        data = [e if k % 2 == 0 else list(e) for k, e in enumerate(data)]
+    elif kind == "ndarray":
+        import numpy
+        data = numpy.array(data, dtype=CSEPCatalog.dtype)
+    return CSEPCatalog(data=data, catalog_id=build_catid(spec),
                        name=spec["name"], region=build_region(spec["region"]) if with_region else None)
+
+
+def check_construction(ctx, case):
+    """what the constructor stores is what was handed over (ids cut to the 256 bytes of the dtype), whatever container
+    the events came in"""
+    spec = case["cat"]
+    want = [(e[0][:256],) + e[1:] for e in (event_of_spec(s) for s in spec["events"])]
+    fails = []
+    compare_events(f"construction from {spec.get('data_kind') or 'tuples'}", want, events_of(build(spec, with_region=False)), fails)
+    ctx.run.case(summary(case), None)
+    ctx.run.count("format:construct")
+    ctx.run.count("construct:" + (spec.get("data_kind") or "tuples"))
+    if fails:
+        ctx.fail(case, *fails[0])
 
 
 def nontrivial(spec, spec2=None):
@@ -229,7 +279,7 @@ def summary(case):
     """short description of a case for the evidence samples"""
     c = case["cat"]
     s = dict(fmt=case["fmt"], n=len(c["events"]), catalog_id=c["catalog_id"], name=c["name"],
-             region=None if c["region"] is None else len(c["region"]["origins"]), opts=case.get("opts"), tz=case.get("tz"))
+             region=None if c["region"] is None else len(c["region"].get("origins") or c["region"].get("quadkeys")), opts=case.get("opts"), tz=case.get("tz"))
     if c["events"]:
         e = event_of_spec(c["events"][0])
         s["first"] = [e[0][:24], e[1], e[2], e[3], e[4], e[5]]
@@ -320,7 +370,8 @@ class Ctx:
                 self.agree += 1
             else:
                 op = self.drv.lines[i].split(" ", 1)[0]
-                below = (op in ("c14_write", "c14_timestr") or case.get("kind") == "malformed"
+                below = (op in ("c14_write", "c14_writeg", "c14_timestr", "c14_region_dict", "c14_region_load")
+                         or case.get("kind") == "malformed"
                          or (case.get("fmt") == "append" and case.get("opts", {}).get("header2")))
                 if below:
                     # file layout / reader behaviour on files the writer never produces: finer than the property
@@ -372,6 +423,8 @@ class Ctx:
             self.run.count("catalog_id beyond 2^53" + (" (beyond int64)" if not -2 ** 63 <= cid < 2 ** 63 else ""))
         if spec.get("catalog_id_np"):
             self.run.count("catalog_id numpy." + spec["catalog_id_np"])
+        if spec["region"] is not None and spec["region"].get("quadkeys"):
+            self.run.count("region QuadtreeGrid2D")
         if spec["region"] is not None and spec["region"].get("origins_dtype"):
             self.run.count(f"region origins {spec['region']['origins_dtype']}, dh {spec['region'].get('dh_kind') or 'float'}")
 
@@ -453,28 +506,46 @@ def load_ascii(path):
 def check_ascii(ctx, case):
     spec, o = case["cat"], case["opts"]
     hdr, emp = bool(o["write_header"]), bool(o["write_empty"])
+    noid = bool(o.get("no_id_col"))     # round 4: write_ascii(id_col=<a column the array does not have>)
     cat = build(spec, with_region=False)
     ref = events_of(cat)
     path = ctx.path("csv")
     fails, codec = [], []        # round-trip failures are reported before codec failures
-    branches = [f"ascii:header={int(hdr)},write_empty={int(emp)}"]
+    branches = [f"ascii:header={int(hdr)},write_empty={int(emp)}" + (",no id column" if noid else "")]
     try:
-        cat.write_ascii(path, write_header=hdr, write_empty=emp)
+        if noid:
+            cat.write_ascii(path, write_header=hdr, write_empty=emp, id_col="no_such_column")
+        else:
+            cat.write_ascii(path, write_header=hdr, write_empty=emp)
     except Exception as e:
         ctx.fail(case, f"ascii write: write_ascii raised {type(e).__name__}: {e}")
         ctx.account(case, *branches)
         return
-    rows, recs = written_file(ctx, path, ref, [], codec)
+    # without id column the id cells are empty and the reader numbers the records by their index in the file
+    written = [("",) + e[1:] for e in ref] if noid else ref
+    expect = [(str(k + (1 if hdr else 0)),) + e[1:] for k, e in enumerate(ref)] if noid else ref
+    rows, recs = written_file(ctx, path, written, [], codec)
     ctx.n_events += len(ref)
     if recs is not None:
-        ctx.ask(f"c14_write {int(hdr)} {int(emp)} 0 {catid_tok(spec['catalog_id'])} {events_tok(ref)} -", recs, case)
+        if noid:
+            ctx.ask(f"c14_writeg {int(hdr)} {int(emp)} 0 {catid_tok(spec['catalog_id'])} {events_tok(ref)} - 0", recs, case)
+        else:
+            ctx.ask(f"c14_write {int(hdr)} {int(emp)} 0 {catid_tok(spec['catalog_id'])} {events_tok(ref)} -", recs, case)
     loaded, resp, exc = load_ascii(path)
     if recs is not None:
         ctx.ask(f"c14_read {recs}", resp, case)
     if loaded is None:
         fails.append((f"ascii round trip: load_catalog raised {type(exc).__name__}: {exc}", None))
     else:
-        compare_events("ascii round trip", ref, events_of(loaded), fails)
+        got = events_of(loaded)
+        if noid:
+            # the format carried no id: the property's "identical id" has nothing to compare. Which ids the reader
+            # invents is below the property level (the model says: record indices; counted, and compared through
+            # c14_read); count, order and the five other fields are demanded
+            ctx.run.count("ascii:no id column, ids are the record indices" if [e[0] for e in got] == [e[0] for e in expect]
+                          else "ascii:no id column, ids differ from the record indices")
+            expect = [(g[0],) + e[1:] for g, e in zip(got, expect)] if len(got) == len(expect) else expect
+        compare_events("ascii round trip" + (" (no id column)" if noid else ""), expect, got, fails)
         if not ref:
             branches.append("ascii:empty catalog (no row carries the id; id not demanded)")
         elif spec["catalog_id"] is None:
@@ -546,6 +617,10 @@ def compare_region(what, region, got, fails):
     if got is None or type(got) is not type(region):
         fails.append((f"{what}: region {type(region).__name__} -> {type(got).__name__}", None))
         return
+    if hasattr(region, "quadkeys"):
+        if not numpy.array_equal(numpy.asarray(got.quadkeys), numpy.asarray(region.quadkeys)):
+            fails.append((f"{what}: quadtree region comes back with other quadkeys", None))
+        return
     # a value json cannot express (numpy scalar, ...) is kept as a tagged string: it must come back as the same number
     norm = lambda r: json.loads(json.dumps(r.to_dict(), sort_keys=True,
                                            default=lambda o: f"<{type(o).__name__}:{o!r}>"))
@@ -558,6 +633,111 @@ def compare_region(what, region, got, fails):
             and numpy.array_equal(got.idx_map, region.idx_map, equal_nan=True))
     if not same:
         fails.append((f"{what}: region grid arrays (origins/dh/xs/ys/bbox_mask/idx_map) differ after the round trip", None))
+
+
+# ---- round 4: the region's dict form against the model, and "still bins identically"
+def region_tok(name, dh, origins):
+    return (f"{'none' if name is None else hx(str(name))} {rat(dh)} "
+            + (";".join(f"{rat(x)}:{rat(y)}" for x, y in origins) if len(origins) else "-"))
+
+
+def region_parts(reg):
+    return reg.name, float(reg.dh), [(float(a), float(b)) for a, b in reg.origins()]
+
+
+def cell_of(reg, lon, lat):
+    """index of the cell the region puts a point in, -1 = outside"""
+    try:
+        return int(reg.get_index_of([lon], [lat])[0])
+    except ValueError:
+        return -1
+
+
+def check_region_forms(ctx, case, cat, loaded, ref, fails):
+    """a CartesianGrid2D that went through dict / JSON: its dict form and the reloaded region against the model; the
+    reloaded region must bin every probe point like the original (direct oracle) and like the model (safe points)"""
+    import numpy
+    reg, got = cat.region, loaded.region
+    if reg is None or got is None or type(got) is not type(reg) or not hasattr(reg, "dh"):
+        return
+    name, dh, org = region_parts(reg)
+    d = reg.to_dict()
+    polys = d.get("polygons") or []
+    impl = (f"{'none' if d.get('name') is None else hx(str(d['name']))} {rat(d['dh'])} "
+            + (";".join(f"{rat(q['lat'])}:{rat(q['lon'])}" for q in polys) if polys else "-")
+            + f" {'none' if d.get('class_id') is None else hx(str(d['class_id']))}")
+    ctx.ask(f"c14_region_dict {region_tok(name, dh, org)}", impl, case)
+    ctx.ask(f"c14_region_rt {region_tok(name, dh, org)}", region_tok(*region_parts(got)), case)
+    # probe points: events (at most 10), every cell's centre and a quarter point, two points outside
+    safe = []
+    for ox, oy in org[:12]:
+        safe += [(ox + 0.5 * dh, oy + 0.5 * dh), (ox + 0.25 * dh, oy + 0.75 * dh)]
+    xs, ys = [o[0] for o in org], [o[1] for o in org]
+    outside = [(min(xs) - 0.5 * dh, min(ys) + 0.5 * dh), (max(xs) + 1.5 * dh, max(ys) + 0.5 * dh)]
+    pts = [(e[3], e[2]) for e in ref[:10] if abs(e[3]) <= 360 and abs(e[2]) <= 90] + safe + outside
+    a = [cell_of(reg, x, y) for x, y in pts]
+    b = [cell_of(got, x, y) for x, y in pts]
+    ctx.run.count("region: binning compared before/after dict form")
+    if a != b:
+        k = next(i for i in range(len(pts)) if a[i] != b[i])
+        fails.append((f"{case['fmt']} round trip: the reloaded region puts the point {pts[k]!r} into cell {b[k]}, the "
+                      f"original region into cell {a[k]}", None))
+    # the model's cells are the exact half-open squares; a region with a single row or column of cells accepts points
+    # beyond its upper side (known finding D4 of C01), so points outside go to the model only for proper lattices
+    mpts = safe + (outside if len(set(xs)) > 1 and len(set(ys)) > 1 else [])
+    cells = [cell_of(got, x, y) for x, y in mpts]
+    counts = numpy.bincount([c for c in cells if c >= 0], minlength=len(org)).tolist() if org else []
+    ctx.ask(f"c14_cells {rat(dh)} {region_tok(None, dh, org).split(' ', 2)[2]} "
+            + ";".join(f"{rat(x)}:{rat(y)}" for x, y in mpts),
+            ",".join(map(str, cells)) + " " + ",".join(map(str, counts)), case)
+
+
+REGION_DICT_VARIANTS = ["as-is", "no-class-id", "class-id-none", "region-none", "quadtree-form", "unknown-class",
+                        "no-polygons", "no-name", "no-dh"]
+
+
+def check_regiondict(ctx, case):
+    """the region branch of Catalog.from_dict (catalogs.py:174-182) on hand-edited dicts; correspondence only, recorded
+    below the property level (these dicts are not what to_dict produces)"""
+    from csep.core.catalogs import CSEPCatalog
+    spec, variant = case["cat"], case["variant"]
+    cat = build(spec)
+    d = cat.to_dict()
+    rd = d.get("region")
+    if variant == "no-class-id":
+        rd.pop("class_id", None)
+    elif variant == "class-id-none":
+        rd["class_id"] = None
+    elif variant == "region-none":
+        d["region"] = rd = None
+    elif variant == "quadtree-form":
+        d["region"] = rd = {k: rd[k] for k in ("name", "polygons")}
+    elif variant == "unknown-class":
+        rd["class_id"] = "QuadtreeGrid2D"
+    elif variant == "no-polygons":
+        rd.pop("polygons", None)
+    elif variant == "no-name":
+        rd.pop("name", None)
+    elif variant == "no-dh":
+        rd.pop("dh", None)
+    if rd is None:
+        line = "c14_region_load 0 none none none none"
+    else:
+        polys = rd.get("polygons")
+        line = ("c14_region_load 1 "
+                + ("none" if rd.get("class_id") is None else hx(str(rd["class_id"]))) + " "
+                + ("none" if rd.get("name") is None else hx(str(rd["name"]))) + " "
+                + ("none" if rd.get("dh") is None else rat(rd["dh"])) + " "
+                + ("none" if polys is None else (";".join(f"{rat(q['lat'])}:{rat(q['lon'])}" for q in polys) or "-")))
+    try:
+        loaded = CSEPCatalog.from_dict(d)
+        resp = "none" if loaded.region is None else "region " + region_tok(*region_parts(loaded.region))
+    except Exception as e:
+        resp = type(e).__name__
+    ctx.ask(line, resp, case)
+    ctx.run.case(dict(kind="regiondict", variant=variant), ("regiondict", variant, case_key(case)))
+    ctx.run.count("format:regiondict")
+    ctx.run.count(f"regiondict:{variant} -> {resp.split(' ', 1)[0]}")
 
 
 def check_dict(ctx, case):
@@ -596,6 +776,7 @@ def check_dict(ctx, case):
     if not (loaded.name == spec["name"] and type(loaded.name) is type(spec["name"])):
         fails.append((f"{what}: name {spec['name']!r} -> {loaded.name!r}", None))
     compare_region(what, cat.region, loaded.region, fails)
+    check_region_forms(ctx, case, cat, loaded, ref, fails)
     ctx.ask(f"c14_dict_rt {catid_tok(cid)} {events_tok(ref)}", f"{catid_tok(loaded.catalog_id)} {events_tok(got)}", case)
     if fails:
         ctx.fail(case, *fails[0])
@@ -842,7 +1023,11 @@ def gen_catalog(rng, n, pool, force=None):
     ms_mode = force or rng.choice(["uniform", "uniform", "special", "whole", "pre1970", "phase"])
     fl_mode = rng.choice(["short", "digits17", "extreme", "mixed", "mixed", "mixed", "tiny"])
     region, inside = None, False
-    if rng.random() < 0.35:
+    if "quadtree region through dict/JSON" not in AWAITING_DECISION and rng.random() < 0.08:
+        keys = rng.choice([["0", "1", "2", "3"], ["00", "01", "02", "03", "1", "2", "3"],
+                           ["0", "1", "2", "30", "31", "32", "330", "331", "332", "333"]])
+        region = dict(quadkeys=keys, name=rng.choice([None, "qt"]))
+    elif rng.random() < 0.35:
         inside = rng.random() < 0.5      # events inside the region: the DataFrame form keeps the region
         region = gen_region(rng, with_magnitudes=inside and rng.random() < 0.6)
     events = []
@@ -868,6 +1053,8 @@ def gen_catalog(rng, n, pool, force=None):
                 j = (i + 1) % n if kind == "adjacent" else rng.randrange(n)
                 events[j] = list(events[i])
     spec = dict(events=events, catalog_id=gen_catalog_id(rng), name=rng.choice(NAMES), region=region)
+    if rng.random() < 0.35:
+        spec["data_kind"] = rng.choice(["lists", "mixed", "ndarray", "tuples"])
     if "numpy-integer catalog_id through JSON" not in AWAITING_DECISION and spec["catalog_id"] is not None \
             and -2 ** 31 <= spec["catalog_id"] < 2 ** 31 and rng.random() < 0.15:
         spec["catalog_id_np"] = rng.choice(["int64", "int32", "uint64" if spec["catalog_id"] >= 0 else "int64"])
@@ -890,7 +1077,11 @@ def _check_case(ctx, case):
     elif kind == "timestr":
         ctx.ask(f"c14_timestr {int(case['ms'])}",
                 _timestr_impl(int(case["ms"])), case)
-    elif fmt == "ascii":
+    elif kind == "regiondict":
+        check_regiondict(ctx, case)
+    elif fmt == "construct":
+        check_construction(ctx, case)
+    elif fmt in ("ascii", "ascii-noid"):
         check_ascii(ctx, case)
     elif fmt == "append":
         check_append(ctx, case)
@@ -931,6 +1122,15 @@ def _check_catalog(ctx, spec, frame_opts, serial, prev, check_case):
     todo = combos if not spec["events"] else [combos[serial % 4]]
     for hdr, emp in todo:
         check_case(ctx, dict(kind="catalog", fmt="ascii", cat=spec, opts=dict(write_header=hdr, write_empty=emp)))
+    if spec.get("data_kind"):
+        check_case(ctx, dict(kind="catalog", fmt="construct", cat=spec))
+    # round 4: the catalog array has no column of the name given as id_col
+    hdr, emp = combos[(serial // 4) % 4]
+    check_case(ctx, dict(kind="catalog", fmt="ascii-noid", cat=spec,
+                         opts=dict(write_header=hdr, write_empty=emp, no_id_col=True)))
+    if spec["region"] is not None and not spec["region"].get("quadkeys"):
+        check_case(ctx, dict(kind="regiondict", fmt="regiondict", cat=spec,
+                             variant=REGION_DICT_VARIANTS[serial % len(REGION_DICT_VARIANTS)]))
     check_case(ctx, dict(kind="catalog", fmt="dict", cat=spec))
     check_case(ctx, dict(kind="catalog", fmt="json", cat=spec,
                          opts=dict(via="load_catalog" if serial % 3 == 0 else "load_json")))
